@@ -51,10 +51,21 @@ fn size(c: &mut Cursor, len: usize, boundary: bool) -> usize {
 fn take(c: &mut Cursor, n: usize) -> usize {
     let b = c.u8();
     if b & 1 == 1 {
-        usize::MAX
+        // bits 1..3: how everything is consumed (next / fold / for_each / collect), plain for most bytes
+        usize::MAX - if b & 0x80 != 0 { (b as usize >> 1) & 3 } else { 0 }
     } else {
         (b as usize >> 1) % n.max(1).min(64)
     }
+}
+
+/// `take` of a chunk pull: prefix by `next()`, then one of the uses of the rest (see `interp::decode_take`)
+fn chunk_take(c: &mut Cursor, n: usize) -> usize {
+    let t = take(c, n);
+    if t >= usize::MAX - 3 {
+        return t;
+    }
+    let m = c.u8();
+    crate::interp::encode_take(t, if m & 1 == 1 { (m >> 1) & 7 } else { 0 })
 }
 
 fn how(c: &mut Cursor, len: usize, composite: bool) -> How {
@@ -114,7 +125,7 @@ pub fn decode(data: &[u8], cfg: &DecCfg) -> Option<Case> {
                 2 => Op::NextIdVal,
                 3 | 4 => {
                     let n = size(&mut c, len, cfg.boundary_sizes);
-                    Op::Chunk { n, take: take(&mut c, n) }
+                    Op::Chunk { n, take: chunk_take(&mut c, n) }
                 }
                 5 => {
                     let mut n = size(&mut c, len, cfg.boundary_sizes);
@@ -123,7 +134,7 @@ pub fn decode(data: &[u8], cfg: &DecCfg) -> Option<Case> {
                     }
                     Op::BufNew { n: n.max(1) }
                 }
-                6 | 7 => Op::BufNext { take: take(&mut c, len + 3) },
+                6 | 7 => Op::BufNext { take: chunk_take(&mut c, len + 3) },
                 8 if cfg.queries => {
                     if c.u8() & 1 == 0 {
                         Op::Len
